@@ -13,8 +13,8 @@ Open Scope N_scope.
    * one of http.server's own error answers, code 400, 414, 431, 501 or 505;
    * the answer of _delegate_request: a response record that is well-formed and to which the bytes on the
      wire parse back under the strict parser of C03 (or, for an HTTP/0.9 request, exactly its body),
-     and an exception is logged (the `except Exception` branches) only if some handler's handle raises
-     or returns a failing stream. *)
+     and an exception is logged (the `except Exception` branches) only if some handler is faulty for some
+     path: its prepare_context raises, its handle raises, or it returns a failing stream. *)
 Theorem C09_http_total : forall e hs eof data, env_ok e = true -> hspecs_ok hs = true ->
   match react e hs eof data with
   | RClosed => True
@@ -24,15 +24,15 @@ Theorem C09_http_total : forall e hs eof data, env_ok e = true -> hspecs_ok hs =
       response_ok resp = true /\
       (simple = false -> parse_response w = Some resp) /\
       (simple = true -> w = r_body resp) /\
-      (internal = true -> exists h, In h hs /\ act_raises (h_act h) = true)
+      (internal = true -> exists h path, In h hs /\ faulty path h = true)
   end.
 Proof. exact http_total. Qed.
 Print Assumptions C09_http_total.
 
-(* client bytes alone never reach the catch-all: if no handler's handle raises, no byte string makes
+(* client bytes alone never reach the catch-all: if no handler is faulty, no byte string makes
    _delegate_request log an exception *)
 Theorem C09_http_no_internal_error : forall e hs eof data,
-  (forall h, In h hs -> act_raises (h_act h) = false) -> internal_of (react e hs eof data) = false.
+  (forall h path, In h hs -> faulty path h = false) -> internal_of (react e hs eof data) = false.
 Proof. exact http_no_internal_error. Qed.
 Print Assumptions C09_http_no_internal_error.
 
@@ -58,7 +58,7 @@ Print Assumptions C09_http_bad_path_400.
 
 (* no handler accepts the path: the 404 error response, nothing is logged *)
 Theorem C09_http_no_handler_404 : forall e hs simple m path, bad_path path = false ->
-  (forall h, In h hs -> h_pred h path = false) ->
+  (forall h, In h hs -> h_pred h path = false /\ h_boom h path = false) ->
   exists w, vinegar_react e hs simple m path = RVinegar simple w (error_response (set_head e m) 404) false.
 Proof. exact no_handler_404. Qed.
 Print Assumptions C09_http_no_handler_404.
@@ -91,7 +91,7 @@ Print Assumptions C09_http_holds.
 (* examples (vm_compute): "GET a HTTP/1.0" -> 400 by vinegar; "BREW / HTTP/1.0" -> 501; "GET / HTTP/2.0" -> 505
    without status line; an unterminated head with the connection open -> wait, after shutdown -> dispatched *)
 Definition ex_env : env := {| e_server := [83]; e_date := [68]; e_responses := []; e_head := false |}.
-Definition ex_hs : list hspec := [{| h_pred := fun p => beqb p (bytes_of_string "/f"); h_act := HReturn 200 None None |}].
+Definition ex_hs : list hspec := [{| h_pred := fun p => beqb p (bytes_of_string "/f"); h_boom := fun _ => false; h_act := HReturn 200 None None |}].
 Example C09_http_examples :
   observe (react ex_env ex_hs true (bytes_of_string "GET a HTTP/1.0" ++ [13; 10; 13; 10])) = OResponse 400 /\
   observe (react ex_env ex_hs true (bytes_of_string "GET /f HTTP/1.0" ++ [13; 10; 13; 10])) = OResponse 200 /\
